@@ -1068,6 +1068,8 @@ var _ rpc.Resources
 //@   ensures[C02] forall x *Subscription :: x.state == stateToSend && old(x.state) != stateToSend ==> predClosed(x, r)
 //@   ensures[C02] predSetGrows(r)
 //@   ensures[C02] indirect ==> s.indirectsent > old(s.indirectsent)
+// (a resource that is newly handed over counts, for each of its references, as one more parent that has been sent)
+//@   assert[C02] sc.sub.populateResources#1: arg1 && arg0 == r
 //@   assigns Subscription.state, Subscription.indirectsent, r.Models, r.Collections, r.Errors, elemsof(map[string]interface{}), elemsof(map[string]*reserr.Error), alloc()
 //@   safety[C15]
 //@   loop 1 invariant s.state == stateToSend && old(s.state) != stateToSend && old(s.state) != stateSent && predRefsOK()
@@ -1086,6 +1088,7 @@ var _ rpc.Resources
 //@   ensures[C02] forall x *Subscription :: x.state == stateToSend && old(x.state) != stateToSend ==> predClosed(x, r)
 //@   ensures[C02] predSetGrows(r)
 //@   ensures[C02] indirect ==> s.indirectsent > old(s.indirectsent)
+//@   assert[C02] sc.sub.populateResourcesLegacy#1: arg1 && arg0 == r
 //@   assigns Subscription.state, Subscription.indirectsent, r.Models, r.Collections, r.Errors, elemsof(map[string]interface{}), elemsof(map[string]*reserr.Error), alloc()
 //@   safety[C15]
 //@   loop 1 invariant s.state == stateToSend && old(s.state) != stateToSend && old(s.state) != stateSent && predRefsOK()
